@@ -10,7 +10,7 @@ import numpy as np
 
 from fjmon import specs as S
 
-K = 1e4
+K = 1e5  # rounding-error multiplier (1e4 left a 5x outlier for spline inverses in bins with derivative 1e-5)
 LOG2 = math.log(2.0)
 
 
@@ -114,7 +114,7 @@ def make_points(tagarr, crit, rng, fdt, n_rand=36, n_crit=48, n_big=8, big=1e6, 
         crit_flag.append(True)
         hits.append(hs)
     for _ in range(n_big):
-        mag = 10.0 ** rng.uniform(2, math.log10(big), n)
+        mag = 10.0 ** rng.uniform(min(2.0, math.log10(big) - 1.0), math.log10(big), n)
         v = rng.choice([-1.0, 1.0], n) * mag
         v = np.where(tg == S.POS, np.abs(v), v)
         v = np.where(tg == S.UNIT, np.clip(np.tanh(rng.standard_normal(n) * 3), -1 + 1e-6, 1 - 1e-6), v)
